@@ -5,7 +5,7 @@ import Nsq.Model.ChanInv
 /-! Driver for engine E2 (nsqd / topic / channel / client state machine).
 One operation per input line, one canonical answer line out (DESIGN Appendix B). -/
 open Nsq Nsq.Line
-open Nsq.Model.Chan (Chan Client Entry Out Conf findC isInflight isDeferred)
+open Nsq.Model.Chan (Chan Client Entry Out Conf Loc findC isInflight isDeferred)
 open Nsq.Model.ChanNsqd
 
 def nat? (s : String) : Option Nat := s.toNat?
@@ -77,6 +77,35 @@ def priPairs (ws : List String) : Option (List (Nat × Int)) :=
       | some c, some p => some (c, p)
       | _, _ => none
     | _ => none)
+
+/-- a real channel state dumped at a quiescent point of the concurrent leg: rebuild the model
+channel (locations, counters) and evaluate the history-free conjuncts of the invariant on it -/
+def rchanCheck (eph memq mem dq mc q ifs dfs cls : String) : String :=
+  let lst (s : String) : List String := if s = "-" then [] else s.splitOn ","
+  let qids := (lst ((q.drop 2).toString)).filterMap (·.toNat?)
+  let ife := (lst ((ifs.drop 3).toString)).filterMap (fun w => match w.splitOn ":" with
+    | [i, c] => match i.toNat?, c.toNat? with | some i, some c => some (i, c) | _, _ => none
+    | _ => none)
+  let dids := (lst ((dfs.drop 3).toString)).filterMap (·.toNat?)
+  let cl := (lst ((cls.drop 3).toString)).filterMap (fun w => match w.splitOn ":" with
+    | [c, r, i] => match c.toNat?, r.toInt?, i.toInt? with | some c, some r, some i => some (c, r, i) | _, _, _ => none
+    | _ => none)
+  match memq.toNat?, mem.toNat?, dq.toNat?, mc.toNat? with
+  | some memq, some mem, some dq, some mc =>
+    let msgs : List Entry := qids.map (fun i => ⟨i, 0, .queued⟩) ++ ife.map (fun p => ⟨p.1, 0, .inflight p.2 0 0⟩)
+      ++ dids.map (fun i => ⟨i, 0, .deferred 0⟩)
+    let bad : List String :=
+      (if Nsq.Model.Chan.nodupB (msgs.map (·.id)) then [] else ["an id occurs in two places"]) ++
+      (if mem == qids.length then [] else ["memory queue length"]) ++
+      (if eph == "1" || memq > 0 || mem == 0 then [] else ["memory queue used although mem-queue-size is 0"]) ++
+      (if mem ≤ memq || (eph == "1" && memq == 0) then [] else ["memory queue above its capacity"]) ++
+      (if eph == "0" || dq == 0 then [] else ["ephemeral channel with disk depth"]) ++
+      (if mc ≥ msgs.length + dq then [] else ["message_count below the number of messages held"]) ++
+      cl.foldr (fun (c : Nat × Int × Int) acc =>
+        (if c.2.2 == (Nsq.Model.Chan.heldBy msgs c.1 : Int) then [] else [s!"client {c.1} in_flight_count {c.2.2} but holds {Nsq.Model.Chan.heldBy msgs c.1}"]) ++
+        (if c.2.2 ≥ 0 && c.2.1 ≥ 0 then [] else [s!"client {c.1} negative counter"]) ++ acc) []
+    if bad.isEmpty then "rchan ok" else "rchan BAD " ++ "; ".intercalate bad
+  | _, _, _, _ => "bad-op"
 
 def apply (s : State) (op : Nsq.Model.ChanNsqd.Op) (sorted : Bool := false) : State × String :=
   let r := step s op
@@ -161,6 +190,7 @@ def stepLine (s : State) (line : String) : State × String :=
     let en := enabledAt s
     (s, if en.isEmpty then "quiet" else joinSp ("ENABLED" :: en))
   | ["inv"] => (s, Nsq.Model.ChanInv.invReport s)
+  | ["rchan", eph, memq, mem, dq, mc, q, ifs, dfs, cls] => (s, rchanCheck eph memq mem dq mc q ifs dfs cls)
   | ["reset"] => ({}, "ok")
   | _ => (s, "bad-op")
 
